@@ -14,7 +14,9 @@ Open Scope Z_scope.
 
 Inductive err :=
 | EShort      (* errShortRead *)
-| EIO         (* any transport error: io.EOF, io.ErrUnexpectedEOF, closed pipe, bufio error *)
+| EIO         (* a transport error other than a bare io.EOF: io.ErrUnexpectedEOF, closed pipe, time-out *)
+| ERawEOF     (* a bare io.EOF from the transport (Peek/Discard at the end of the stream): Batch.readMessage
+                 hands it to the caller as it is while Batch.err becomes io.ErrUnexpectedEOF *)
 | EBadMagic   (* "unsupported magic byte" *)
 | ECodec      (* errUnknownCodec (a decompression failure is an EIO) *)
 | ENegBatch   (* "batch remain < 0" *)
@@ -38,7 +40,7 @@ Arguments POk {A}. Arguments PErr {A}.
 Definition p_fixed (w : nat) (s : rd) : pres (list N) :=
   let '(i, sz) := s in
   if sz <? Z.of_nat w then PErr EShort s
-  else if len i <? Z.of_nat w then PErr EIO s
+  else if len i <? Z.of_nat w then PErr ERawEOF s
   else POk (firstn w i) (skipn w i, sz - Z.of_nat w).
 
 Definition p_int (w : nat) (s : rd) : pres Z :=
@@ -52,11 +54,11 @@ Definition p_discard (n : Z) (s : rd) : pres unit :=
   let '(i, sz) := s in
   if n <=? sz then
     if n <? 0 then PErr EIO s                                  (* bufio.ErrNegativeCount *)
-    else if len i <? n then PErr EIO ([], sz - len i)
+    else if len i <? n then PErr ERawEOF ([], sz - len i)
     else POk tt (zdrop n i, sz - n)
   else
     if sz <? 0 then PErr EIO s
-    else if len i <? sz then PErr EIO ([], sz - len i)
+    else if len i <? sz then PErr ERawEOF ([], sz - len i)
     else PErr EShort (zdrop sz i, 0).
 
 (* read.go readVarInt: scans at most sz bytes for one < 0x80; x |= (b&0x7f) << s with Go's
@@ -92,7 +94,7 @@ Definition p_newbytes (n : Z) (s : rd) : pres (list N) :=
   if n <=? 0 then POk [] s
   else
     let n' := if sz <? n then sz else n in
-    if len i <? n' then PErr EIO ([], sz - len i)
+    if len i <? n' then PErr (if len i =? 0 then ERawEOF else EIO) ([], sz - len i)
     else if sz <? n then PErr EShort (zdrop n' i, sz - n')
     else POk (ztake n i) (zdrop n i, sz - n).
 
@@ -434,13 +436,14 @@ Definition batch_read1 (fuel : nat) (b : batch) : bres :=
       | MOk (g, lo) m' => BMsg g (set_b b (Some m') (g_off g + 1) lo None)
       | MErr EShort m' =>
         match msr_discard m' with
-        | Some e => BErr EIO (set_b b (Some m') (b_off b) (b_last b) (Some EIO))
+        | Some e => BErr e (set_b b (Some m') (b_off b) (b_last b) (Some EIO))
         | None =>
           let e := if b_late b then ETimedOut else EEOF in
           let off := if negb (b_late b) && (m_lrem m' =? 0) && negb (b_last b =? -1)
                      then b_last b + 1 else b_off b in
           BErr e (set_b b (Some m') off (b_last b) (Some e))
         end
+      | MErr ERawEOF m' => BErr ERawEOF (set_b b (Some m') (b_off b) (b_last b) (Some EIO))
       | MErr e m' => BErr e (set_b b (Some m') (b_off b) (b_last b) (Some e))
       end
     end
@@ -469,6 +472,7 @@ Definition new_batch (offset hwm : Z) (i : list N) (remain : Z) (late : bool) : 
        | MErr EShort m =>
          (* checkTimeoutErr, then dontExpectEOF turns io.EOF into io.ErrUnexpectedEOF *)
          mkBatch (Some m) true offset offset 0 (Some (if late then ETimedOut else EIO)) late
+       | MErr ERawEOF m => mkBatch (Some m) true offset offset 0 (Some EIO) late
        | MErr e m => mkBatch (Some m) true offset offset 0 (Some e) late
        | MPanic => mkBatch None true offset offset 0 (Some EFuel) late
        end.
